@@ -17,6 +17,15 @@ ASSUMPTIONS = [
 ]
 
 
+def lim(rng, n):
+    """a build configuration with failure limit n (None = no limit) and a random SOURCE of the limit: keyword argument max_failures,
+    keyword argument stop_after_first_failure, the project's config file (max_failures / stop_after_first_failure), or both (same value)"""
+    cfg = {"maxfail": n}
+    if n is not None:
+        cfg["maxfail_src"] = rng.choice(["kwarg", "kwarg", "config", "both"] + (["kwarg_stop", "config_stop"] if n == 1 else []))
+    return cfg
+
+
 def ext_spec(spec):
     """the spec including the tasks that its task generators create (child 50+id of generator id; optional `gen_child_deps`)"""
     gens = [t for t in spec["tasks"] if t.get("gen")]
@@ -93,14 +102,14 @@ def histories(ctx):
         # markers that must be irrelevant to containment: skipif(False), try_first / try_last, user markers
         spec = engine.gen_spec(rng, nt=(2, 7), after_p=0.25, after_needs_prods=True, behs=("ok", "ok", "ok", "early", "late", "omit"),
                                marks=(("skipif_false", 0.3), ("try_first", 0.12), ("try_last", 0.12)), user_markers=True)
-        cfg = {"maxfail": rng.choice([None, None, 1, 2, 3])}
+        cfg = lim(rng, rng.choice([None, None, 1, 2, 3]))
         if rng.random() < 0.25:
             cfg["force"] = True
         steps = [["build", cfg]]
         if rng.random() < 0.3:   # missing input
             ins = [int(k) for k in spec["inputs"]]
             steps.insert(0, ["delete", rng.choice(ins)])
-        steps.append(["build", {"maxfail": rng.choice([None, 1, 2])}])
+        steps.append(["build", lim(rng, rng.choice([None, 1, 2]))])
         fails = [t for t in spec["tasks"] if t["beh"] != "ok"]
         if fails and rng.random() < 0.7:
             f = rng.choice(fails)
@@ -129,7 +138,7 @@ def histories(ctx):
         ins = sorted({d for u in ups for d in byid[u]["deps"]} & {int(k) for k in spec["inputs"]}) or [int(k) for k in spec["inputs"]]
         beh = rng.choice(["late", "late", "late", "early", "omit:0"])
         steps = [["build", {}], ["write", rng.choice(ins), rng.randint(100, 999)], ["setbeh", f["id"], beh],
-                 ["build", {"maxfail": rng.choice([None, None, 2])}], ["build", {}]]
+                 ["build", lim(rng, rng.choice([None, None, 2]))], ["build", {}]]
         hs.append({"tag": "persist-dependant", "spec": spec, "steps": steps})
     return hs
 
@@ -163,7 +172,7 @@ def memlink_histories(ctx):
             u = byid[rng.choice(linked)]
             if u["beh"] == "ok":
                 u["beh"] = rng.choice(["early", "late"])
-        steps = [["build", {"maxfail": rng.choice([None, None, 1, 2])}], ["build", {}]]
+        steps = [["build", lim(rng, rng.choice([None, None, 1, 2]))], ["build", {}]]
         hs.append({"tag": "memlink", "spec": spec, "steps": steps})
     return hs
 
@@ -206,7 +215,7 @@ def dirlink_histories(ctx):
                 u["beh"] = f"omit:{rng.randrange(len(u['prods']))}"              # fails in teardown: a file product is never created
             elif r < 0.8:
                 u["beh"] = rng.choice(["late", "early"])
-        steps = [["build", {"maxfail": rng.choice([None, None, 1, 2])}], ["build", {}]]
+        steps = [["build", lim(rng, rng.choice([None, None, 1, 2]))], ["build", {}]]
         hs.append({"tag": "dirlink", "spec": spec, "steps": steps})
     return hs
 
@@ -250,7 +259,7 @@ def generator_histories(ctx):
                         u = prod_of[rng.choice(t["gen_child_deps"])]
                         if u["beh"] == "ok" and not u.get("gen"):
                             u["beh"] = rng.choice(["late", "late", "early"])
-        cfg = {"maxfail": rng.choice([None, 1, 1, 2])}
+        cfg = lim(rng, rng.choice([None, 1, 1, 2]))
         steps = [["build", cfg]]
         gens = [t for t in spec["tasks"] if t.get("gen")]
         if rng.random() < 0.5:
@@ -268,7 +277,7 @@ def generator_histories(ctx):
                 beh = u["beh"]
                 u["beh"] = "ok"
                 steps = [["build", {}], ["setbeh", u["id"], beh], ["build", cfg]]
-        steps.append(["build", {"maxfail": rng.choice([None, 1, 2])}])
+        steps.append(["build", lim(rng, rng.choice([None, 1, 2]))])
         hs.append({"tag": "generator", "spec": spec, "steps": steps})
     return hs
 
